@@ -1,7 +1,7 @@
 (* C11 runner: replays english-auction and limit-bid traces on the extracted models
    (English.v, LimitBid.v), threading the MODEL state through the whole history and diffing the
    projection after every step; evaluates the extracted predicates holds_C11_* on the
-   IMPLEMENTATION's observations and classifies failures by kf_C11_1 / kf_C11_2. *)
+   IMPLEMENTATION's observations (no known-finding class is left for C11: every failure is a violation). *)
 open Conv
 
 let zs = string_of_z
@@ -152,14 +152,16 @@ let eng_check (c : ecase) (o : eobs) =
 
 (* ------------------------------------------------------------------------------------------ *)
 (* limit bids                                                                                  *)
+(* lmod = the module's bank balance per debt denom MINUS the proceeds the running Dutch auctions keep
+   in the module (lproc): the coins available to back limit deposits.  That is the model's MOD. *)
 type lobs = { lrecs : (LimitBid.key * LimitBid.lrec) list; ltots : (LimitBid.mkt * BinNums.coq_Z) list;
-              lmod : string array; lbals : string array array }
+              lbank : string array; lproc : string array; lmod : string array; lbals : string array array }
 
 type lcase = {
   lid : string; lnb : int; cfg : LimitBid.cfg; base : BinNums.coq_Z array;
-  mutable lst : LimitBid.lstate option; mutable lprev : lobs option; mutable lpending : string list option;
-  mutable lstep_no : int; mutable taint1 : bool; mutable taint2 : bool;
-  mutable keys : LimitBid.key list; mutable deps : int; mutable outs : int; lsig : Buffer.t;
+  mutable lst : LimitBid.lstate option; mutable lprev : lobs option; mutable lpending : string list list;
+  mutable lstep_no : int;
+  mutable keys : LimitBid.key list; mutable deps : int; mutable outs : int; mutable fills : int; lsig : Buffer.t;
   reported : (string, unit) Hashtbl.t }   (* persistent failures are reported once per case *)
 
 let parse_lobs nb toks =
@@ -178,8 +180,11 @@ let parse_lobs nb toks =
      | m :: rest ->
        let (ts, rest) = tots (int_of_string m) rest [] in
        let arr = Array.of_list rest in
-       if Array.length arr <> 3 + 3 * nb then failwith "lobs balances";
-       { lrecs = rs; ltots = ts; lmod = Array.sub arr 0 3; lbals = Array.init nb (fun i -> Array.sub arr (3 + 3 * i) 3) }
+       if Array.length arr <> 6 + 3 * nb then failwith "lobs balances";
+       let lbank = Array.sub arr 0 3 and lproc = Array.sub arr 3 3 in
+       { lrecs = rs; ltots = ts; lbank; lproc;
+         lmod = Array.init 3 (fun d -> Z.to_string (Z.sub (Z.of_string lbank.(d)) (Z.of_string lproc.(d))));
+         lbals = Array.init nb (fun i -> Array.sub arr (6 + 3 * i) 3) }
      | [] -> failwith "lobs")
   | [] -> failwith "lobs"
 
@@ -191,6 +196,7 @@ let lledger (o : lobs) : FLedger.ledger =
 
 let show_key (k : LimitBid.key) = Printf.sprintf "%s/%s/%s/%s" (zs k.LimitBid.k_debt) (zs k.LimitBid.k_coll) (zs k.LimitBid.k_prem) (zs k.LimitBid.k_who)
 
+(* a message line -> the model operation *)
 let lop_of toks : LimitBid.lop * int * string =
   match toks with
   | "op" :: "dep" :: who :: coll :: debt :: prem :: den :: amt :: res :: [] ->
@@ -199,15 +205,24 @@ let lop_of toks : LimitBid.lop * int * string =
     (LimitBid.Cancel (z_of_string who, z_of_string coll, z_of_string debt, z_of_string prem), int_of_string who, res)
   | "op" :: "wd" :: who :: coll :: debt :: prem :: den :: amt :: res :: [] ->
     (LimitBid.Withdraw (z_of_string who, z_of_string coll, z_of_string debt, z_of_string prem, z_of_string den, z_of_string amt), int_of_string who, res)
-  | "op" :: "fill" :: debt :: coll :: prem :: who :: d :: spent :: ok :: res :: [] ->
-    (LimitBid.AutoFill ({ LimitBid.k_debt = z_of_string debt; k_coll = z_of_string coll; k_prem = z_of_string prem; k_who = z_of_string who },
-                        z_of_string d, z_of_string spent, bool_of_tok ok), int_of_string who, res)
   | l -> failwith ("bad limit op: " ^ S.concat " " l)
+
+type fill = { fdebt : BinNums.coq_Z; fcoll : BinNums.coq_Z; fprem : BinNums.coq_Z; fD : BinNums.coq_Z; fok : bool; fwhos : BinNums.coq_Z list }
+
+let fill_of toks =
+  match toks with
+  | "op" :: "fill" :: debt :: coll :: prem :: d :: ok :: n :: whos when L.length whos = int_of_string n ->
+    { fdebt = z_of_string debt; fcoll = z_of_string coll; fprem = z_of_string prem; fD = z_of_string d; fok = bool_of_tok ok;
+      fwhos = L.map z_of_string whos }
+  | l -> failwith ("bad fill line: " ^ S.concat " " l)
 
 let key_of_op = function
   | LimitBid.Deposit (w, c, d, p, _, _) | LimitBid.Withdraw (w, c, d, p, _, _) | LimitBid.Cancel (w, c, d, p) ->
     Some { LimitBid.k_debt = d; k_coll = c; k_prem = p; k_who = w }
-  | LimitBid.AutoFill (k, _, _, _) -> Some k
+  | LimitBid.AutoFill _ -> None
+
+let denom_of_asset (c : lcase) (asset : BinNums.coq_Z) : int option =
+  match LimitBid.aget (fun a b -> zeq a b) asset c.cfg.LimitBid.assets with Some d -> Some (int_of_z d) | None -> None
 
 let lim_check (c : lcase) (o : lobs) =
   let case = c.lid and step = c.lstep_no in
@@ -215,31 +230,73 @@ let lim_check (c : lcase) (o : lobs) =
   (match c.lst with None -> c.lst <- Some (LimitBid.lempty (lledger o)) | Some _ -> ());
   let impl_state = { LimitBid.recs = o.lrecs; totals = o.ltots; led = lledger o } in
   let pre_impl = (match c.lprev with Some p -> Some ({ LimitBid.recs = p.lrecs; totals = p.ltots; led = lledger p }, p) | None -> None) in
-  let cur_op = ref None in
-  (match c.lpending with
-   | Some toks ->
-     let (op, who, res) = lop_of toks in
-     cur_op := Some (op, who, res);
-     let kind = (match op with LimitBid.Deposit _ -> "dep" | LimitBid.Cancel _ -> "can" | LimitBid.Withdraw _ -> "wd" | LimitBid.AutoFill _ -> "fill") in
-     bump ("op:" ^ kind); bump (kind ^ ":" ^ res);
-     Buffer.add_string c.lsig (S.concat " " toks ^ ";");
-     (match key_of_op op with
-      | Some k -> if not (L.exists (fun k' -> LimitBid.keq k k') c.keys) then c.keys <- k :: c.keys
-      | None -> ());
-     let s = (match c.lst with Some s -> s | None -> assert false) in
-     (match LimitBid.lstep c.cfg s op with
-      | Base.Ok s' -> mm "result" "ok" res; c.lst <- Some s'
-      | Base.Err code -> mm "result" "err" res; bump (kind ^ ":err" ^ zs code)
-      | Base.Panic -> mm "result" "panic" res);
-     if res = "ok" then begin
-       (match op with LimitBid.Deposit _ -> c.deps <- c.deps + 1 | LimitBid.AutoFill _ -> () | _ -> c.outs <- c.outs + 1);
-       (match pre_impl with
-        | Some (ps, _) ->
-          if LimitBid.kf_C11_1 ps op then begin c.taint1 <- true; bump "kf:C11_1-input" end;
-          if LimitBid.kf_C11_2 ps op then begin c.taint2 <- true; bump "kf:C11_2-input" end
-        | None -> ())
-     end
-   | None -> ());
+  let cur_op = ref None in          (* the message of this step, if it is one *)
+  let is_block = ref false in
+  let pending = L.rev c.lpending in
+  let note_key k = if not (L.exists (fun k' -> LimitBid.keq k k') c.keys) then c.keys <- k :: c.keys in
+  (* ---- the fills of a block: the module's net outflow per denom is observed for the whole block
+          only; it is attributed to the closures in order (each at most what it charges, the rest
+          to the last committed closure of that denom) ---- *)
+  let fills = L.filter_map (function ("op" :: "fill" :: _) as t -> Some (fill_of t) | _ -> None) pending in
+  let remaining = Array.init 3 (fun d ->
+      match c.lst with
+      | Some s -> Z.sub (zz_of_z (s.LimitBid.led LimitBid.coq_MOD (zi d))) (Z.of_string o.lmod.(d))
+      | None -> Z.zero) in
+  let nfills = L.length fills in
+  L.iteri (fun i f ->
+      is_block := true;
+      Buffer.add_string c.lsig (Printf.sprintf "f%s:%s:%s:%s:%b:%s;" (zs f.fdebt) (zs f.fcoll) (zs f.fprem) (zs f.fD) f.fok (S.concat "," (L.map zs f.fwhos)));
+      bump "op:fill"; bump (if f.fok then "fill:committed" else "fill:rolled-back");
+      L.iter (fun w -> note_key { LimitBid.k_debt = f.fdebt; k_coll = f.fcoll; k_prem = f.fprem; k_who = w }) f.fwhos;
+      let s = (match c.lst with Some s -> s | None -> assert false) in
+      let dn = denom_of_asset c f.fdebt in
+      let spent =
+        if not f.fok then Z.zero else
+          match dn with
+          | Some d when d >= 0 && d < 3 ->
+            let later = L.exists (fun (j, g) -> j > i && g.fok && denom_of_asset c g.fdebt = dn) (L.mapi (fun j g -> (j, g)) fills) in
+            let charge = zz_of_z (snd (LimitBid.fill_recs f.fdebt f.fcoll f.fprem f.fD f.fwhos s)) in
+            let x = if later then Z.max Z.zero (Z.min charge remaining.(d)) else remaining.(d) in
+            remaining.(d) <- Z.sub remaining.(d) x; x
+          | _ -> Z.zero in
+      (* branch statistics, on the model's records *)
+      if f.fok then begin
+        c.fills <- c.fills + 1;
+        (try L.iter (fun w ->
+             match LimitBid.aget LimitBid.keq { LimitBid.k_debt = f.fdebt; k_coll = f.fcoll; k_prem = f.fprem; k_who = w } s.LimitBid.recs with
+             | Some r ->
+               let cmp = Z.compare (zz_of_z r.LimitBid.r_amt) (zz_of_z f.fD) in
+               bump (if cmp = 0 then "fill:record=debt" else if cmp > 0 then "fill:record>debt" else "fill:record<debt");
+               if cmp = 0 then raise Exit
+             | None -> bump "fill:record-gone") f.fwhos with Exit -> ());
+        if L.length f.fwhos > 1 then bump "fill:several-records"
+      end;
+      let op = LimitBid.AutoFill (f.fdebt, f.fcoll, f.fprem, f.fD, f.fwhos, z_of_zz spent, f.fok) in
+      (match LimitBid.lstep c.cfg s op with
+       | Base.Ok s' -> c.lst <- Some s'
+       | Base.Err code -> if f.fok then mm "fill-result" ("err" ^ zs code) "ok"
+       | Base.Panic -> mm "fill-result" "panic" (if f.fok then "ok" else "err"));
+      ignore nfills) fills;
+  (* ---- the message / the block marker ---- *)
+  L.iter (fun toks ->
+      match toks with
+      | "op" :: "fill" :: _ -> ()
+      | "op" :: "block" :: _now :: res :: [] ->
+        is_block := true; bump "op:block"; Buffer.add_string c.lsig "B;";
+        mm "result" "ok" res            (* the hook recovers panics and swallows errors *)
+      | _ ->
+        let (op, who, res) = lop_of toks in
+        cur_op := Some (op, who, res);
+        let kind = (match op with LimitBid.Deposit _ -> "dep" | LimitBid.Cancel _ -> "can" | LimitBid.Withdraw _ -> "wd" | LimitBid.AutoFill _ -> "fill") in
+        bump ("op:" ^ kind); bump (kind ^ ":" ^ res);
+        Buffer.add_string c.lsig (S.concat " " toks ^ ";");
+        (match key_of_op op with Some k -> note_key k | None -> ());
+        let s = (match c.lst with Some s -> s | None -> assert false) in
+        (match LimitBid.lstep c.cfg s op with
+         | Base.Ok s' -> mm "result" "ok" res; c.lst <- Some s'
+         | Base.Err code -> mm "result" "err" res; bump (kind ^ ":err" ^ zs code)
+         | Base.Panic -> mm "result" "panic" res);
+        if res = "ok" then (match op with LimitBid.Deposit _ -> c.deps <- c.deps + 1 | LimitBid.AutoFill _ -> () | _ -> c.outs <- c.outs + 1)) pending;
   (* ---- diff ---- *)
   let s = (match c.lst with Some s -> s | None -> assert false) in
   mm "nrecs" (string_of_int (L.length s.LimitBid.recs)) (string_of_int (L.length o.lrecs));
@@ -251,10 +308,7 @@ let lim_check (c : lcase) (o : lobs) =
   Array.iteri (fun d v -> mm (Printf.sprintf "bal[mod,%d]" d) (zs (s.LimitBid.led LimitBid.coq_MOD (zi d))) v) o.lmod;
   Array.iteri (fun i row -> Array.iteri (fun d v -> mm (Printf.sprintf "bal[%d,%d]" i d) (zs (s.LimitBid.led (zi i) (zi d))) v) row) o.lbals;
   (* ---- the property on the implementation's observation ---- *)
-  let kf_now = (match !cur_op, pre_impl with
-      | Some (op, _, "ok"), Some (ps, _) -> if LimitBid.kf_C11_1 ps op then "kf_C11_1" else if LimitBid.kf_C11_2 ps op then "kf_C11_2" else "none"
-      | _ -> "none") in
-  let kf = if kf_now <> "none" then kf_now else if c.taint1 then "kf_C11_1" else if c.taint2 then "kf_C11_2" else "none" in
+  let kf = "none" in
   let markets = L.sort_uniq compare (L.map (fun (m, _) -> (zs (fst m), zs (snd m))) o.ltots @ L.map (fun (k, _) -> (zs k.LimitBid.k_debt, zs k.LimitBid.k_coll)) o.lrecs) in
   L.iter (fun (d, cl) ->
       let m = (z_of_string d, z_of_string cl) in
@@ -267,7 +321,7 @@ let lim_check (c : lcase) (o : lobs) =
     if not (LimitBid.holds_C11_limit_custody impl_state (zi d) c.base.(d)) && not (Hashtbl.mem c.reported ("c" ^ string_of_int d)) then begin
       Hashtbl.replace c.reported ("c" ^ string_of_int d) ();
       predfail ~case ~step ~pred:"holds_C11_limit_custody" ~kf
-        ~detail:(Printf.sprintf "denom=%d_module=%s_base=%s_deposits=%s" d o.lmod.(d) (zs c.base.(d)) (zs (LimitBid.sum_denom (zi d) impl_state)))
+        ~detail:(Printf.sprintf "denom=%d_module=%s_auction_proceeds=%s_base=%s_deposits=%s" d o.lbank.(d) o.lproc.(d) (zs c.base.(d)) (zs (LimitBid.sum_denom (zi d) impl_state)))
     end
   done;
   (match !cur_op, pre_impl with
@@ -280,7 +334,20 @@ let lim_check (c : lcase) (o : lobs) =
                       (match key_of_op op with Some k -> zs (LimitBid.dep k ps) | None -> "-"))
      done
    | _ -> ());
-  c.lprev <- Some o; c.lpending <- None
+  (* a block pays no debt coins to anybody *)
+  (match !is_block, pre_impl with
+   | true, Some (ps, po) ->
+     let op = LimitBid.AutoFill (BinNums.Z0, BinNums.Z0, BinNums.Z0, BinNums.Z0, [], BinNums.Z0, true) in
+     for who = 0 to c.lnb - 1 do
+       for d = 0 to 2 do
+         let delta = Z.sub (Z.of_string o.lbals.(who).(d)) (Z.of_string po.lbals.(who).(d)) in
+         if not (LimitBid.holds_C11_limit_own ps op (zi d) (z_of_zz delta)) then
+           predfail ~case ~step ~pred:"holds_C11_limit_own" ~kf
+             ~detail:(Printf.sprintf "block_who=%d_denom=%d_received=%s" who d (Z.to_string delta))
+       done
+     done
+   | _ -> ());
+  c.lprev <- Some o; c.lpending <- []
 
 (* ------------------------------------------------------------------------------------------ *)
 let run (path : string) =
@@ -315,13 +382,13 @@ let run (path : string) =
         let base = Array.of_list (L.map z_of_string rest) in
         cur_l := Some { lid = id; lnb = int_of_string nb;
                         cfg = { LimitBid.assets = pairs al; closing_fee = z_of_string cf; withdrawal_fee = z_of_string wf };
-                        base; lst = None; lprev = None; lpending = None; lstep_no = 0; taint1 = false; taint2 = false;
-                        keys = []; deps = 0; outs = 0; lsig = Buffer.create 256; reported = Hashtbl.create 8 }
+                        base; lst = None; lprev = None; lpending = []; lstep_no = 0;
+                        keys = []; deps = 0; outs = 0; fills = 0; lsig = Buffer.create 256; reported = Hashtbl.create 8 }
       | "op" :: _ as toks ->
         incr steps;
         (match !cur_e, !cur_l with
          | Some c, _ -> c.estep <- c.estep + 1; c.pending <- Some toks
-         | _, Some c -> c.lstep_no <- c.lstep_no + 1; c.lpending <- Some toks
+         | _, Some c -> c.lstep_no <- c.lstep_no + 1; c.lpending <- toks :: c.lpending
          | _ -> ())
       | "obs" :: toks -> (match !cur_e with Some c -> eng_check c (parse_eobs c.nb toks) | None -> ())
       | "lobs" :: toks -> (match !cur_l with Some c -> lim_check c (parse_lobs c.lnb toks) | None -> ())
